@@ -322,6 +322,27 @@ mod imp {
                 }
                 seen.push(y.c);
             }
+            // real-time order across the two sender phases (see C07)
+            {
+                let span = |q: i64| -> (u64, u64) {
+                    let inv = evs.iter().find(|e| e.op == "send.inv" && e.a == route && e.b == q).map(|e| e.seq).unwrap_or(0);
+                    let ret = evs.iter().find(|e| e.op == "send.ok" && e.a == route && e.b == q).map(|e| e.seq).unwrap_or(u64::MAX);
+                    (inv, ret)
+                };
+                let mut latest_inv: Option<(u64, i64)> = None;
+                for y in yielded.iter().filter(|y| y.b == route) {
+                    let (inv, ret) = span(y.c);
+                    if let Some((li, lq)) = latest_inv {
+                        if ret < li {
+                            out.viol("order:stream", format!("stream {}: message {} (send returned at #{}) was yielded after message {} whose send began only at #{}", route, y.c, ret, lq, li));
+                            break;
+                        }
+                    }
+                    if latest_inv.map(|(li, _)| inv > li).unwrap_or(true) {
+                        latest_inv = Some((inv, y.c));
+                    }
+                }
+            }
             for e in evs.iter().filter(|e| e.op == "yield.bad" && e.a == route) {
                 out.viol("torn:stream", format!("stream {}: {}", route, e.s));
             }
